@@ -175,12 +175,17 @@ def _explicit_case(repo, it, S, spec):
     f_type = repo.fn(f"{LOCQ}.lift_over_to_first_ancestor_of_type")
     chrom = chrom_parent(it, GENOME, alphabet=ALPHA)
     chrom_seq = chrom.fields["sequence"]
-    bare = lambda blocks, sn: _mk_loc(it, S, blocks, sn, None)  # noqa: E731
+    # 'handle': the placement of a level on the next one itself carries a parent handle that only names the next level (id and
+    # type; the shape io.parser.seq_chunk_to_parent gives a chunk's location) - the full ancestor (sequence, further ancestors)
+    # comes from the explicit chain
+    handles = {"chr1": lambda: mk_parent(it, id="chr1", sequence_type=st["CHROMOSOME"]),
+               "lvl1": lambda: mk_parent(it, id="lvl1", sequence_type=st["SEQUENCE_CHUNK"])}
+    bare = lambda blocks, sn, on=None: _mk_loc(it, S, blocks, sn, handles[on]() if style == "handle" and on else None)  # noqa: E731
     l1_blocks, l1_strand = lv1
     img1 = image(l1_blocks, l1_strand)
 
     def seq_parent(up_id, up_type, up_seq, blocks, sn):
-        if style == "plain":
+        if style in ("plain", "handle"):
             return None
         if style == "named":
             return mk_parent(it, id=up_id, sequence_type=up_type, sequence=up_seq)
@@ -189,7 +194,7 @@ def _explicit_case(repo, it, S, spec):
     seq1 = mk_sequence(it, img1, ALPHA, id="lvl1", type=st["SEQUENCE_CHUNK"],
                        parent=seq_parent("chr1", st["CHROMOSOME"], chrom_seq, l1_blocks, l1_strand))
     chain = [(l1_blocks, l1_strand)]
-    top = mk_parent(it, id="chr1", sequence_type=st["CHROMOSOME"], sequence=chrom_seq, location=bare(l1_blocks, l1_strand))
+    top = mk_parent(it, id="chr1", sequence_type=st["CHROMOSOME"], sequence=chrom_seq, location=bare(l1_blocks, l1_strand, "chr1"))
     if lv2 is None:
         level_parent = mk_parent(it, id="lvl1", sequence_type=st["SEQUENCE_CHUNK"], sequence=seq1, parent=top)
         level_img = img1
@@ -199,7 +204,7 @@ def _explicit_case(repo, it, S, spec):
         img2 = "".join((comp(img1[p]) if l2_strand == "MINUS" else img1[p]) for p in pos2)
         # the level-2 sequence carries no parent of its own (even level), as in the mixed hierarchies this models
         seq2 = mk_sequence(it, img2, ALPHA, id="lvl2", type="level2")
-        mid = mk_parent(it, id="lvl1", sequence_type=st["SEQUENCE_CHUNK"], sequence=seq1, location=bare(l2_blocks, l2_strand), parent=top)
+        mid = mk_parent(it, id="lvl1", sequence_type=st["SEQUENCE_CHUNK"], sequence=seq1, location=bare(l2_blocks, l2_strand, "lvl1"), parent=top)
         level_parent = mk_parent(it, id="lvl2", sequence_type="level2", sequence=seq2, parent=mid)
         level_img = img2
         chain.append((l2_blocks, l2_strand))
@@ -229,6 +234,16 @@ def _explicit_case(repo, it, S, spec):
         dup = len(set(pos)) != len(pos)
         if (sorted(got) != sorted(pos) if dup else got != pos) or gs != strand:
             out.append(("lift by type (explicit chain)", f"{desc}: lifted to {blocks_of(v)}:{gs} = bases {got}; composing the level maps gives {pos} on {strand}", f_type.qual))
+        elif not is_empty_obj(v) and strand != "UNSTRANDED":
+            # the lifted location sits on the full ancestor: it extracts, from the chromosome, what the child extracts from its level
+            n += 1
+            f_ext = repo.fn(f"location.location_impl:{v.cls_name}.extract_sequence")
+            k2, sq = run(it, f_ext, [], {}, v)
+            want = "".join(comp(GENOME[p]) if strand == "MINUS" else GENOME[p] for p in got)
+            if k2 != "ok" or ut(_seq_str(sq)) != ut(want):
+                out.append(("lifted location keeps the ancestor's sequence (explicit chain)",
+                            f"{desc}: the lifted location {blocks_of(v)}:{gs} extracts {k2}:{_seq_str(sq) if k2 == 'ok' else sq!r}; the chromosome bases at the "
+                            f"composed positions are {want!r}", f_type.qual))
     if lv2 is not None:
         n += 1
         k, v = run(it, f_type, [st["SEQUENCE_CHUNK"]], {}, child)
@@ -253,6 +268,27 @@ def _chunk_case(repo, it, S, spec):
     blocks = blocks_of(loc)
     desc = f"{blocks}:{sn} on chunk [{cs},{ce})"
     inside = [p for p in enum_positions(blocks, sn) if cs <= p < ce]
+    # the same round trip through an interval object built on the chunk: chromosome blocks -> chunk -> chromosome gives the part
+    # inside the chunk (nothing when the chunk misses the interval), whichever way the sequence type is named
+    srt = sorted(blocks)
+    if all(e_ > s_ for s_, e_ in blocks) and all(srt[i][1] <= srt[i + 1][0] for i in range(len(srt) - 1)):
+        from ..genekernel import mk_feature
+        fw = repo.fn("gene.interval:AbstractInterval.lift_over_to_first_ancestor_of_type")
+        try:
+            feat = mk_feature(it, srt, S[sn], parent_or_seq_chunk_parent=cp)
+        except Raised:
+            feat = None
+        if feat is not None:
+            for how, args in (("default", []), ("enum", [st["CHROMOSOME"]]), ("name", ["chromosome"])):
+                n += 1
+                kw_, back = run(it, fw, list(args), {}, feat)
+                got = None
+                if kw_ == "ok":
+                    got = [] if is_empty_obj(back) else enum_positions(blocks_of(back), strand_of(back).name)
+                if got != inside:
+                    out.append(("interval on a chunk lifted back", f"feature {srt}:{sn} built on chunk [{cs},{ce}): lift_over_to_first_ancestor_of_type("
+                                f"{how}) -> {kw_}:{got if kw_ == 'ok' else back}; the part of the interval inside the chunk is {inside}", fw.qual))
+                    break
     n += 1
     k, v = run(it, f, [loc, cp], {}, None)
     if k != "ok":
@@ -370,8 +406,8 @@ def rk_hierarchies(ctx):
     for i, lv1 in enumerate(LEVEL1):
         for j, lv2 in enumerate([None] + LEVEL2[:2]):
             for k_, (lay, sn) in enumerate(children):
-                for style in ("plain", "named", "shallow"):
-                    if ctx.thorough or (i + j + k_ + len(style)) % 3 == 0:
+                for style in ("plain", "named", "shallow", "handle"):
+                    if ctx.thorough or style == "handle" or (i + j + k_ + len(style)) % 3 == 0:
                         especs.append((lv1, lv2, lay, sn, style))
     results += pmap(_runner(ctx.repo, _explicit_case), especs)
     _report(ctx, "C04.RK", results, [
